@@ -8,6 +8,8 @@ package breaker
 //
 // Events: reset{t,fair,eager} adv{d} callStart{c,api,ctx,acc} reqStart{c} reqEnd{c,out} fbRun{c,arg}
 // callEnd{c,ret,pan} pStart{c,how} pEnd{c} obs{w:[succ,fail,drop]}   (times in ms)
+// Events of calls made through the by-name entry points (breakers.go) also carry n = the name;
+// see zz_verif_c01_names_test.go for the registry rounds.
 
 import (
 	"context"
@@ -127,6 +129,7 @@ type c01Call struct {
 	runs    atomic.Int32
 	promise Promise
 	emit    func(verifEv) // nil: the shared emitter
+	name    string        // non-empty: the call goes through the by-name entry points (breakers.go)
 }
 
 type c01Sig struct {
@@ -144,6 +147,7 @@ type c01H struct {
 	open   map[int]*c01Call // parked calls / unresolved promises
 	nextID int
 	t0     int64
+	name   string // non-empty: every call of this history is made by name (Do*(name, ...), GetBreaker(name))
 }
 
 const c01Ms = int64(time.Millisecond)
@@ -153,9 +157,19 @@ func c01New(t *testing.T, em *verifEmitter, startMs int64, steer bool) *c01H {
 }
 
 func c01NewMode(t *testing.T, em *verifEmitter, startMs int64, steer, eager bool) *c01H {
+	return c01NewNamed(t, em, startMs, steer, eager, "")
+}
+
+// c01NewNamed: with a name, the breaker is the one the registry hands out for it and every
+// call of the history goes through the package-level by-name functions.
+func c01NewNamed(t *testing.T, em *verifEmitter, startMs int64, steer, eager bool, name string) *c01H {
 	c01Clock.Store(startMs * c01Ms)
-	h := &c01H{t: t, em: em, sig: make(chan c01Sig, 4096), open: map[int]*c01Call{}, t0: startMs}
-	h.b = NewBreaker()
+	h := &c01H{t: t, em: em, sig: make(chan c01Sig, 4096), open: map[int]*c01Call{}, t0: startMs, name: name}
+	if name != "" {
+		h.b = GetBreaker(name)
+	} else {
+		h.b = NewBreaker()
+	}
 	h.gb = c01Google(t, h.b)
 	if steer {
 		h.src = &c01Src{rnd: verifRand(startMs)}
@@ -187,7 +201,22 @@ func (h *c01H) newCall(op c01Op) *c01Call {
 	if op.Acc == nil {
 		op.Acc = []string{}
 	}
-	return &c01Call{op: op, id: id, errv: &c01Err{id}, fbErr: &c01Err{-id}, panv: &c01Pan{id}}
+	return &c01Call{op: op, id: id, errv: &c01Err{id}, fbErr: &c01Err{-id}, panv: &c01Pan{id}, name: h.name}
+}
+
+// emitter: where the events of this call go; events of by-name calls carry the name.
+func (h *c01H) emitter(c *c01Call) func(verifEv) {
+	emit := h.em.Emit
+	if c.emit != nil {
+		emit = c.emit
+	}
+	if c.name == "" {
+		return emit
+	}
+	return func(ev verifEv) {
+		ev["n"] = c.name
+		emit(ev)
+	}
 }
 
 // success: would the result of this call be recorded as a success?
@@ -212,10 +241,7 @@ func (c *c01Call) accepts(out string) bool {
 
 // run performs one call on the real breaker in the calling goroutine.
 func (h *c01H) run(c *c01Call, async bool) {
-	emit := h.em.Emit
-	if c.emit != nil {
-		emit = c.emit
-	}
+	emit := h.emitter(c)
 	op := c.op
 	emit(verifEv{"e": "callStart", "c": c.id, "api": op.Api, "ctx": op.Ctx, "acc": op.Acc})
 	var ctx context.Context
@@ -278,10 +304,14 @@ func (h *c01H) run(c *c01Call, async bool) {
 	if op.Api == "allow" {
 		var p Promise
 		var err error
+		brk := h.b
+		if c.name != "" {
+			brk = GetBreaker(c.name)
+		}
 		if ctx != nil {
-			p, err = h.b.AllowCtx(ctx)
+			p, err = brk.AllowCtx(ctx)
 		} else {
-			p, err = h.b.Allow()
+			p, err = brk.Allow()
 		}
 		ret := classify(err)
 		if err == nil {
@@ -310,7 +340,23 @@ func (h *c01H) run(c *c01Call, async bool) {
 				}
 			}
 		}()
-		switch {
+		switch n := c.name; {
+		case n != "" && op.Api == "do" && ctx == nil:
+			err = Do(n, req)
+		case n != "" && op.Api == "do":
+			err = DoCtx(ctx, n, req)
+		case n != "" && op.Api == "doAcc" && ctx == nil:
+			err = DoWithAcceptable(n, req, acceptable)
+		case n != "" && op.Api == "doAcc":
+			err = DoWithAcceptableCtx(ctx, n, req, acceptable)
+		case n != "" && op.Api == "doFb" && ctx == nil:
+			err = DoWithFallback(n, req, fallback)
+		case n != "" && op.Api == "doFb":
+			err = DoWithFallbackCtx(ctx, n, req, fallback)
+		case n != "" && op.Api == "doFbAcc" && ctx == nil:
+			err = DoWithFallbackAcceptable(n, req, fallback, acceptable)
+		case n != "" && op.Api == "doFbAcc":
+			err = DoWithFallbackAcceptableCtx(ctx, n, req, fallback, acceptable)
 		case op.Api == "do" && ctx == nil:
 			err = h.b.Do(req)
 		case op.Api == "do":
@@ -343,10 +389,7 @@ func (h *c01H) run(c *c01Call, async bool) {
 
 // resolve settles the promise of an admitted Allow call.
 func (h *c01H) resolve(c *c01Call, async bool) {
-	emit := h.em.Emit
-	if c.emit != nil {
-		emit = c.emit
-	}
+	emit := h.emitter(c)
 	if c.promise != nil && (c.op.How == "accept" || c.op.How == "reject") {
 		emit(verifEv{"e": "pStart", "c": c.id, "how": c.op.How})
 		if c.op.How == "accept" {
@@ -582,7 +625,11 @@ func TestVerifC01Random(t *testing.T) {
 	rnd := verifRand(7)
 	histories, length := verifEnvInt("VERIF_C01_HIST", 30), verifEnvInt("VERIF_C01_LEN", 300)
 	for hi := 0; hi < histories; hi++ {
-		h := c01New(t, em, 3600000+int64(rnd.Intn(100000)), true)
+		name := ""
+		if hi%3 == 1 { // through the by-name entry points, on the breaker the registry keeps for the name
+			name = fmt.Sprintf("c01.random/%d/%d", verifSeed(), hi)
+		}
+		h := c01NewNamed(t, em, 3600000+int64(rnd.Intn(100000)), true, false, name)
 		h.obs()
 		ids := map[int][]int{}
 		n := 0
@@ -652,7 +699,11 @@ func TestVerifC01Conc(t *testing.T) {
 	histories, rounds := verifEnvInt("VERIF_C01_CHIST", 12), verifEnvInt("VERIF_C01_ROUNDS", 40)
 	G := verifEnvInt("VERIF_C01_G", 4)
 	for hi := 0; hi < histories; hi++ {
-		h := c01New(t, em, 3600000+int64(rnd.Intn(100000)), true)
+		name := ""
+		if hi%3 == 1 {
+			name = fmt.Sprintf("c01.conc/%d/%d", verifSeed(), hi)
+		}
+		h := c01NewNamed(t, em, 3600000+int64(rnd.Intn(100000)), true, false, name)
 		h.obs()
 		ids := map[int][]int{}
 		key := 0
